@@ -23,7 +23,7 @@ Proof. exact loop_is_scan. Qed.
 Print Assumptions C15_loop_is_scan.
 
 Theorem C15_accumulator_is_suffix : forall isd term rep, term <> [] -> nodelim isd term = true ->
-  forall fuel acc prev s, loopA isd term rep false false fuel acc prev s = option_map (app acc) (loop isd term rep fuel prev s).
+  forall fuel acc prev seen s, loopA isd term rep false false fuel acc prev seen s = option_map (app acc) (loop isd term rep fuel prev s).
 Proof. exact loopA_loop. Qed.
 Print Assumptions C15_accumulator_is_suffix.
 
@@ -44,15 +44,6 @@ Definition C15_flags_full_statement : Prop := forall rhs lhs eq,
 Theorem C15_flags_partial : forall isd term rep eq, replace_flags isd term rep true true eq = replace isd term rep eq.
 Proof. exact replace_both_flags. Qed.
 Print Assumptions C15_flags_partial.
-Theorem C15_flags_refuted_rhs : exists eq,
-  replace_flags is_delim (L "r"%string) (L "X"%string) true false eq <> Some (replace_words_sided is_delim (L "r"%string) (L "X"%string) true false eq).
-Proof. exact replace_rhs_flag_refuted. Qed.
-Print Assumptions C15_flags_refuted_rhs.
-Theorem C15_flags_refuted_lhs : exists eq,
-  replace_flags is_delim (L "r"%string) (L "X"%string) false true eq <> Some (replace_words_sided is_delim (L "r"%string) (L "X"%string) false true eq).
-Proof. exact replace_lhs_flag_refuted. Qed.
-Print Assumptions C15_flags_refuted_lhs.
-
 (* _update_equation(replace, remove, append, prepend): the sequential composition of word-wise substitutions *)
 Theorem C15_update_equation_full : forall isd e eq, edit_ok isd e = true ->
   update_equation isd e eq = Some (update_equation_spec isd e eq).
@@ -98,10 +89,6 @@ Print Assumptions C15_load_dump_refuted_rename.
 Theorem C15_load_dump_refuted_three : exists c, dicts_wf c = true /\ const_overrides c = true /\ variants_le2 c = false /\ ~ load_dump_statement c.
 Proof. exact load_dump_refuted_three. Qed.
 Print Assumptions C15_load_dump_refuted_three.
-Theorem C15_load_dump_refuted_kind : exists c, dicts_wf c = true /\ no_rename c = true /\ const_overrides c = false /\ ~ load_dump_statement c.
-Proof. exact load_dump_refuted_kind. Qed.
-Print Assumptions C15_load_dump_refuted_kind.
-
 (* D33 as a theorem about add_to_dict: with one dict stored under `name`, two further different dicts of that name
    both get the key <name>_num1 and the second overwrites the first *)
 Theorem C15_num1_handed_out_twice : forall name d1 d2 d3 st, assoc name st = Some d1 ->
